@@ -1,5 +1,6 @@
 import Dicom.Model.Bytes
 import Dicom.Spec.StatusSpec
+import Dicom.Spec.Table910
 /-! Line-protocol driver: one op per input line, one output line per op.
 Imports models and specifications only (never Generated or Props), core Lean only. -/
 open Dicom
@@ -15,6 +16,53 @@ def statusCheck (cf : Nat) (k : StatusSpec.Kind) (lo : Nat) : Nat → Option Nat
   | 0 => none
   | n + 1 => if (StatusSpec.allowed cf lo).contains k then statusCheck cf k (lo + 1) n else some lo
 
+/-! ### C04: compact text form of observations -/
+open Dicom.UL in
+def effText : Eff → String
+  | .sendUser => "sendUser" | .send k => s!"send.{k.name}" | .sendAbort n => s!"sendAbort.{n}"
+  | .indReceived => "indReceived" | .indAbort n => s!"indAbort.{n}" | .indDimse => "indDimse"
+  | .close => "close" | .connect => "connect" | .tStart => "tStart" | .tStop => "tStop"
+  | .tRestart => "tRestart" | .sendAbortAny => "sendAbort.*"
+
+open Dicom.UL in
+def obsText : Obs → String
+  | .rejected => "rejected"
+  | .rejectedWithEffects => "rejectedWithEffects"
+  | .raised w => s!"raised:{w}"
+  | .did es n => s!"did:{";".intercalate (es.map effText)}:{n.toNat}"
+
+open Dicom.UL in
+def parseK : String → Option K
+  | "rq" => some .rq | "ac" => some .ac | "rj" => some .rj | "pdata" => some .pdata
+  | "rlrq" => some .rlrq | "rlrp" => some .rlrp | "abort" => some .abort | _ => none
+
+open Dicom.UL in
+def parseEff (s : String) : Option Eff :=
+  match s.splitOn "." with
+  | ["sendUser"] => some .sendUser
+  | ["send", k] => (parseK k).map .send
+  | ["sendAbort", n] => n.toNat?.map .sendAbort
+  | ["indReceived"] => some .indReceived
+  | ["indAbort", n] => n.toNat?.map .indAbort
+  | ["indDimse"] => some .indDimse
+  | ["close"] => some .close | ["connect"] => some .connect
+  | ["tStart"] => some .tStart | ["tStop"] => some .tStop | ["tRestart"] => some .tRestart
+  | _ => none
+
+open Dicom.UL in
+def parseObs (s : String) : Option Obs :=
+  match s.splitOn ":" with
+  | ["rejected"] => some .rejected
+  | ["rejectedWithEffects"] => some .rejectedWithEffects
+  | "raised" :: w => some (.raised (":".intercalate w))
+  | ["did", es, n] =>
+    match n.toNat?.bind St.ofNat? with
+    | none => none
+    | some st =>
+      if es = "" then some (.did [] st)
+      else ((es.splitOn ";").mapM parseEff).map fun l => .did l st
+  | _ => none
+
 def step (line : String) : String :=
   match line.trimAscii.toString.splitOn " " with
   | ["ping"] => "pong"
@@ -29,6 +77,18 @@ def step (line : String) : String :=
       | none => "ok"
       | some c => s!"fail {c} allowed={" ".intercalate ((StatusSpec.allowed cf c).map (·.name))}"
     | _, _, _, _ => "bad-op"
+  | ["fsm-cell", r, st, ev, v, obs] =>
+    match r.toNat?, st.toNat?.bind UL.St.ofNat?, ev.toNat?.bind UL.Ev.ofNat?, v.toNat?, parseObs obs with
+    | some r, some st, some ev, some v, some o =>
+      if UL.obsMatch (UL.specCell (r != 0) st ev (if v = 0 then .v0 else .v1)) o then "ok"
+      else s!"fail spec={obsText (UL.specCell (r != 0) st ev (if v = 0 then .v0 else .v1))}"
+    | _, _, _, _, _ => "bad-op"
+  | ["fsm-table", st, ev] =>
+    match st.toNat?.bind UL.St.ofNat?, ev.toNat?.bind UL.Ev.ofNat? with
+    | some st, some ev => match UL.table ev st with
+      | some a => reprStr a
+      | none => "-"
+    | _, _ => "bad-op"
   | _ => "bad-op"
 
 partial def loop (h : IO.FS.Stream) (out : IO.FS.Stream) : IO Unit := do
